@@ -805,6 +805,19 @@ pub fn gen_cfg(prop: &str, seed: u64) -> RunCfg {
                         ops.push(op);
                     }
                 }
+                if g.rng.pct(6) {
+                    // text with multi-byte characters around the copy-buffer boundaries, read as a string
+                    if let Some(t) = g.target(&world.m[0], Tc::AbsentInDir) {
+                        let id = (g.next_payload / 3 + 1) * 3;
+                        g.next_payload = id + 1;
+                        let len = *g.rng.pick(&[8190u32, 8191, 8192, 8193, 8194, 16383, 16385, 24577]) + g.rng.below(3) as u32;
+                        let blk = vec![Op::Write { p: P::new(&t), append: false, script: vec![WStep::Write(Payload { id, len, utf8: true })] }, Op::ReadToString(P::new(&t)), Op::ReadFile(P::new(&t), 8192)];
+                        for o in &blk {
+                            world.apply(o);
+                        }
+                        ops.extend(blk);
+                    }
+                }
                 if g.rng.pct(12) {
                     let mut blk = reader_block(&mut g, &world.m[0], 0);
                     if spec.has_phys() && g.rng.pct(90) {
